@@ -22,6 +22,8 @@ namespace C06
 structure Server where
   sid : Nat
   key : Nat
+  /-- the entry carries no public key (`Public == nil`): it can be found, but no node can be built on it -/
+  nokey : Bool := false
   deriving DecidableEq, Repr
 
 /-- `Roster`: `ID` and `List`; `tag` stands for everything else that travels with it (suite,
@@ -81,17 +83,26 @@ def makeTreeMarshal (t : Tree) : TreeMarshal :=
 
 /-- why a description is refused -/
 inductive Err where
-  | noRoster | rosterId | notOneRoot | unknownServer | codec
+  | noRoster | rosterId | notOneRoot | unknownServer | noKey | codec
   deriving DecidableEq, Repr
 
-/-- `MakeTreeFromList` for a whole forest; `none` = a server is not in the roster.  Aggregates are
-filled in afterwards. -/
-def makeForest (ro : List Server) : TM → Option TN
-  | .nil => some .nil
+/-- `MakeTreeFromList` (tree.go:368-390) for a whole forest, in the order of the code: the node's
+server is looked up (`Roster.Search`: not found → error), the entry must carry a public key, then
+the children in order (the first error ends the rebuild), then the following siblings.  Aggregates
+are filled in afterwards. -/
+def makeForest (ro : List Server) : TM → Except Err TN
+  | .nil => .ok .nil
   | .node nid sid c s =>
-    match search ro sid, makeForest ro c, makeForest ro s with
-    | some (idx, e), some c', some s' => some (.node nid sid e.key idx 0 c' s')
-    | _, _, _ => none
+    match search ro sid with
+    | none => .error .unknownServer
+    | some (idx, e) =>
+      if e.nokey then .error .noKey else
+      match makeForest ro c with
+      | .error x => .error x
+      | .ok c' =>
+        match makeForest ro s with
+        | .error x => .error x
+        | .ok s' => .ok (.node nid sid e.key idx 0 c' s')
 
 /-- `computeSubtreeAggregate` over a forest: the forest with every `PublicAggregateSubTree` set and
 the sum of the aggregates of its top-level nodes -/
@@ -110,8 +121,8 @@ def makeTree (tm : TreeMarshal) (ro : Option Roster) : Except Err Tree :=
     if ro.id ≠ tm.rosterId then .error .rosterId
     else if tm.children.len ≠ 1 then .error .notOneRoot
     else match makeForest ro.list tm.children with
-      | none => .error .unknownServer
-      | some f => .ok { id := tm.treeId, roster := some ro, root := (aggregate f).1 }
+      | .error e => .error e
+      | .ok f => .ok { id := tm.treeId, roster := some ro, root := (aggregate f).1 }
 
 /-- `NewTree` for a tree put together locally with `NewTreeNode`/`AddChild`: the id is given (it is
 a hash, property C13), aggregates are computed -/
@@ -144,15 +155,30 @@ def binaryUnmarshal {B} (cd : Codec B) (b : B) : Except Err Tree :=
   | none => .error .codec
   | some (t, ro) => newTreeFromMarshal cd t ro
 
+/-- `TreeNode.Equal` (tree.go:961-977) over forests: node id, server id, number of children and
+the children in order — and nothing else (not the key, the roster position or the aggregate) -/
+def nodeEqual : TN → TN → Bool
+  | .nil, .nil => true
+  | .node nid sid _ _ _ c s, .node nid' sid' _ _ _ c' s' =>
+    nid == nid' && sid == sid' && nodeEqual c c' && nodeEqual s s'
+  | _, _ => false
+
+/-- `Tree.Equal` (tree.go:182-188): tree id, roster id, then the nodes; `none` when a roster is
+missing (the code dereferences it) -/
+def treeEqual (t t' : Tree) : Option Bool :=
+  match t.roster, t'.roster with
+  | some ro, some ro' => some (t.id == t'.id && ro.id == ro'.id && nodeEqual t.root t'.root)
+  | _, _ => none
+
 /-! ### the overlay's tree store and the control-message handlers -/
 
-/-- `treeStorage.trees` and `Overlay.pendingTreeMarshal`, the rosters of the live protocol
-instances (`o.instances[*].Roster()`), and two ghost sets for the statements: every id ever
+/-- `treeStorage.trees` and `Overlay.pendingTreeMarshal`, the tree ids of the live protocol
+instances (`o.instances[*].token.TreeID`), and two ghost sets for the statements: every id ever
 requested, every id registered locally -/
 structure Ovl where
   store   : List (Nat × Option Tree) := []
   pending : List (Nat × List TreeMarshal) := []
-  insts   : List Roster := []
+  insts   : List Nat := []
   everReq : List Nat := []
   locals  : List Nat := []
   deriving DecidableEq, Repr
@@ -179,6 +205,13 @@ def Ovl.isRegistered (o : Ovl) (id : Nat) : Bool := (lookup o.store id).isSome
 
 /-- `Overlay.RegisterTree` = `treeStorage.Set` (parked protocol messages are property C01) -/
 def Ovl.setTree (o : Ovl) (t : Tree) : Ovl := { o with store := insert o.store t.id (some t) }
+
+/-- the roster `handleSendTreeMarshal` finds for a roster id (overlay.go:476-486, after 0cfb44b): the
+tokens of the live instances are walked, each instance's tree is read from the store, and a tree
+that is there and carries a roster with that id provides it (the last one, if several do) -/
+def Ovl.instRoster (o : Ovl) (rid : Nat) : Option Roster :=
+  (o.insts.filterMap fun tid =>
+    (o.get tid).bind fun t => t.roster.bind fun r => if r.id = rid then some r else none).getLast?
 
 /-- `treeStorage.GetRoster`: the roster of some stored tree with that roster id -/
 def Ovl.getRoster (o : Ovl) (rid : Nat) : Option Roster :=
@@ -249,7 +282,7 @@ def handle (o : Ovl) : Msg → Ovl × List Out
   | .treeMarshal tm =>
     if tm.treeId = 0 then (o, [])
     else if !o.isRequested tm.treeId then (o, [])
-    else match (o.insts.filter fun r => r.id = tm.rosterId).getLast? with
+    else match o.instRoster tm.rosterId with
       | none =>
         ({ o with pending := insert o.pending tm.rosterId ((lookup o.pending tm.rosterId).getD [] ++ [tm]) },
           [.requestRoster tm.rosterId])
@@ -287,7 +320,7 @@ def localStep (o : Ovl) : Local → Ovl
   | .register t => { o.setTree t with locals := t.id :: o.locals }
   | .instance t =>
     match t.roster with
-    | some ro => { o.setTree t with locals := t.id :: o.locals, insts := o.insts ++ [ro] }
+    | some _ => { o.setTree t with locals := t.id :: o.locals, insts := o.insts ++ [t.id] }
     | none => o
   | .expire id => { o with store := erase o.store id }
 
@@ -319,6 +352,7 @@ def init : State := {}
 inductive Wire where
   | tm (t : TreeMarshal)
   | tbm (w : Wire) (ro : Option Roster)
+  | junk                       -- bytes that are no message, or a message of another type
 
 def wireCodec : Codec Wire :=
   { encTM := .tm
@@ -334,7 +368,7 @@ def showTN : TN → List String
     (s!"{nid}/{sid}/{key}/{idx}/{agg}:{arity}" :: kids) ++ showTN s
 
 def showRoster (ro : Roster) : String :=
-  s!"R{ro.id}[" ++ ",".intercalate (ro.list.map fun s => s!"{s.sid}/{s.key}") ++ s!"]#{ro.tag}"
+  s!"R{ro.id}[" ++ ",".intercalate (ro.list.map fun s => if s.nokey then s!"{s.sid}/nil" else s!"{s.sid}/{s.key}") ++ s!"]#{ro.tag}"
 
 def showTree (t : Tree) : String :=
   s!"T{t.id} " ++ (match t.roster with | none => "R-" | some ro => showRoster ro) ++ " " ++
@@ -345,6 +379,7 @@ def showErr : Err → String
   | .rosterId => "err:roster-id"
   | .notOneRoot => "err:not-one-root"
   | .unknownServer => "err:unknown-server"
+  | .noKey => "err:no-key"
   | .codec => "err:codec"
 
 def showRes : Except Err Tree → String
@@ -458,16 +493,26 @@ def parseTM (s : String) : Option TreeMarshal :=
     | _ => none
   | _ => none
 
-/-- `s/k` server items -/
+/-- `s/k` server items; a dash in place of `k` is an entry without public key -/
 def parseServers (s : String) : Option (List Server) :=
   if s = "-" then some [] else
   (s.splitOn ",").mapM fun it =>
     match it.splitOn "/" with
-    | [a, b] => do some { sid := (← a.toNat?), key := (← b.toNat?) }
+    | [a, b] =>
+      if b = "-" then do some { sid := (← a.toNat?), key := 0, nokey := true }
+      else do some { sid := (← a.toNat?), key := (← b.toNat?) }
     | _ => none
 
 def optRoster (st : State) (s : String) : Option (Option Roster) :=
   if s = "nil" then some none else (s.toNat?.bind fun l => lookup st.rosters l).map some
+
+/-- a roster that can travel: every entry has its public key (the codec cannot write an entry
+without one) -/
+def wireRoster (st : State) (s : String) : Option (Option Roster) :=
+  (optRoster st s).bind fun ro =>
+    match ro with
+    | some r => if r.list.any (·.nokey) then none else some ro
+    | none => some none
 
 def step (st : State) (toks : List String) : State × String :=
   match toks with
@@ -482,7 +527,7 @@ def step (st : State) (toks : List String) : State × String :=
     match l.toNat?, tid.toNat?, r.toNat?.bind (lookup st.rosters), parseItems items with
     | some l, some tid, some ro, some its =>
       let mk := fun (pos nid : Nat) (c s : TN) =>
-        (ro.list[pos]?).map fun e => TN.node nid e.sid e.key pos 0 c s
+        (ro.list[pos]?).bind fun e => if e.nokey then none else some (TN.node nid e.sid e.key pos 0 c s)
       match parseForestWith TN.nil mk (its.length + 1) 1 its with
       | some (f, []) =>
         let t := newTree tid ro f
@@ -506,12 +551,12 @@ def step (st : State) (toks : List String) : State × String :=
         let leaf : Option (Option (Nat × Nat)) :=
           match p? with
           | none => some none
-          | some p => (ro.list[p]?).map fun e => some (p, e.sid)
+          | some p => (ro.list[p]?).bind fun e => if e.nokey then none else some (some (p, e.sid))
         match leaf.bind (editItems its k) with
         | none => (st, "bad-op")
         | some its' =>
           let mk := fun (pos nid : Nat) (c s : TN) =>
-            (ro.list[pos]?).map fun e => TN.node nid e.sid e.key pos 0 c s
+            (ro.list[pos]?).bind fun e => if e.nokey then none else some (TN.node nid e.sid e.key pos 0 c s)
           match parseForestWith TN.nil mk (its'.length + 1) 1 its' with
           | some (f, []) =>
             let t := newTree tid ro f
@@ -520,6 +565,38 @@ def step (st : State) (toks : List String) : State × String :=
               showTree t)
           | _ => (st, "bad-op")
     | _, _, _, _ => (st, "bad-op")
+  -- `strip <label> <old label>`: the same tree value without its roster (`&Tree{ID, Root}`)
+  | ["strip", l, old] =>
+    match l.toNat?, old.toNat?.bind (lookup st.trees) with
+    | some l, some t =>
+      let t' : Tree := { t with roster := none }
+      ({ st with trees := insert st.trees l t' }, showTree t')
+    | _, _ => (st, "bad-op")
+  -- `equal <label> <label>`: Tree.Equal
+  | ["equal", a, b] =>
+    match a.toNat?.bind (lookup st.trees), b.toNat?.bind (lookup st.trees) with
+    | some t, some t' =>
+      (st, match treeEqual t t' with | some true => "true" | some false => "false" | none => "bad-op")
+    | _, _ => (st, "bad-op")
+  -- `frommarshal <empty|unknown|othertype> <roster label | nil>`: NewTreeFromMarshal of bytes that are
+  -- no tree description
+  | ["frommarshal", kind, r] =>
+    match optRoster st r with
+    | some ro =>
+      if kind = "empty" ∨ kind = "unknown" ∨ kind = "othertype" then
+        (st, showRes (newTreeFromMarshal wireCodec Wire.junk ro))
+      else (st, "bad-op")
+    | none => (st, "bad-op")
+  -- `binaryun junk <empty|unknown|othertype>`: BinaryUnmarshaler of bytes that are no binary form;
+  -- `binaryun splice <tree label> <roster label | nil>`: of a binary form whose roster was exchanged
+  | ["binaryun", "junk", kind] =>
+    if kind = "empty" ∨ kind = "unknown" ∨ kind = "othertype" then
+      (st, showRes (binaryUnmarshal wireCodec Wire.junk))
+    else (st, "bad-op")
+  | ["binaryun", "splice", l, r] =>
+    match l.toNat?.bind (lookup st.trees), wireRoster st r with
+    | some t, some ro => (st, showRes (binaryUnmarshal wireCodec (wireCodec.encTBM (marshal wireCodec t, ro))))
+    | _, _ => (st, "bad-op")
   -- `marshal-rt <tree label> <roster label | nil>`: Marshal, NewTreeFromMarshal
   | ["marshal-rt", l, r] =>
     match l.toNat?.bind (lookup st.trees), optRoster st r with
@@ -573,10 +650,10 @@ def step (st : State) (toks : List String) : State × String :=
       | ["reqtree", id, v] => do some (.requestTree (← id.toNat?) (← v.toNat?))
       | ["resptree", d, r] =>
         (if d = "nil" then some none else (parseTM d).map some).bind fun tm =>
-          (optRoster st r).map fun ro => .responseTree tm ro
+          (wireRoster st r).map fun ro => .responseTree tm ro
       | ["tm", d] => (parseTM d).map .treeMarshal
       | ["reqroster", rid] => rid.toNat?.map .requestRoster
-      | ["roster", r] => (r.toNat?.bind (lookup st.rosters)).map .sendRoster
+      | ["roster", r] => ((wireRoster st r).bind id).map .sendRoster
       | _ => none
     match m with
     | some m =>
